@@ -1,7 +1,7 @@
 (** Statement pins for C04: the property theorems must have exactly these
     types, so they cannot be weakened silently. *)
 From RsM Require Import Lib.MachInt Model.Dedup Model.DedupSpec
-  Proofs.DedupTheorems Props.C04.
+  Proofs.DedupTheorems Proofs.DedupGroup Props.C04.
 Open Scope N_scope.
 
 Check (C04_never_twice : forall (s : rx) (h : list N),
@@ -19,3 +19,13 @@ Check (C04_group_sender_clauses : forall (lo first : N) (H : list N),
   lo <= first < lo + two31 -> in_band lo H ->
   group_clauses [first] H
     (fst (run true true (rx_new (wrap32 first)) (map wrap32 H))) = true).
+Check (C04_group_store_invariant : forall ops : list (N * N * N),
+  GInv (g_run gstore_new ops)).
+Check (C04_group_store_tracked : forall st f n c e,
+  g_lookup (g_entries st) f n = Some e ->
+  snd (g_post_recv st f n c) = snd (post_recv (g_rx e) c true true) /\
+  option_map g_rx (g_lookup (g_entries (fst (g_post_recv st f n c))) f n) =
+    Some (fst (post_recv (g_rx e) c true true)) /\
+  (forall f2 n2, ~ (f2 = f /\ n2 = n) ->
+     g_lookup (g_entries (fst (g_post_recv st f n c))) f2 n2 =
+     g_lookup (g_entries st) f2 n2)).
